@@ -11,9 +11,9 @@ for n in sorted(os.listdir(os.path.join(HERE, 'seeded'))):
     d = m.get('detection', {})
     own = {0: 'missed', 1: 'VIOLATION', 2: 'undecided'}.get(d.get('own_property_exit'), '?')
     summ = (m.get('summary') or m.get('what_it_breaks') or '').replace('|', '/').replace('\n', ' ')
-    rows.append('| %s | %s | %s | %s | %s |' % (n, summ[:150], (m.get('needs_to_manifest') or '').replace('|', '/').replace('\n', ' ')[:110],
-                                             own, ', '.join(d.get('violated', [])) or '-'))
-table = '| change | what it does | needs to manifest | own check | all checks reporting VIOLATION |\n|---|---|---|---|---|\n' + '\n'.join(rows)
+    rows.append('| %s | %s | %s | %s | %s | %s |' % (n, summ[:150], (m.get('needs_to_manifest') or '').replace('|', '/').replace('\n', ' ')[:110],
+                                                  m.get('first_evaluation_own', own), own, ', '.join(d.get('violated', [])) or '-'))
+table = '| change | what it does | needs to manifest | own check when first evaluated | own check now | all checks reporting VIOLATION now |\n|---|---|---|---|---|---|\n' + '\n'.join(rows)
 open(os.path.join(HERE, 'seeded', 'RESULTS.md'), 'w').write('# Seeded changes and their detection\n\n' + table + '\n')
 p = os.path.join(HERE, 'DESIGN.md')
 s = open(p).read()
